@@ -1,0 +1,18 @@
+//go:build verif
+
+// Verification shim (add-only, build tag "verif"): read-only view of the cache for the C14 harness.
+
+package lru
+
+// VerifEntries returns the keys and values of the cache from the front (most recently used) to the back.
+func (c *Cache) VerifEntries() (keys []string, vals []interface{}) {
+	if c.cache == nil || c.ll == nil {
+		return nil, nil
+	}
+	for e := c.ll.Front(); e != nil; e = e.Next() {
+		kv := e.Value.(*entry)
+		keys = append(keys, kv.key)
+		vals = append(vals, kv.value)
+	}
+	return keys, vals
+}
